@@ -253,6 +253,9 @@ PROPS["C04"] = {
              "token byte-for-byte at both capture routes, in the endpoint's byte stream (completion by sentinel line) and as the aggregation's "
              "output names; the caller's buffer is unchanged by the call; all recipients identical; every retained slice still equals its "
              "at-receipt copy at the end. rewriter: rewriter.RW.Do vs the reference on names with repeated occurrences. "
+             "input_senders: 2-4 connections served at the same time by ONE plain-text input handler (3-400 lines each, reads of 1..4096 bytes) into a table with "
+             "0-3 rewriters: the multiset of lines the route receives must equal rewritten name + value + timestamp of every line written (nothing lost, twice, or "
+             "mixed from two senders). "
              "lagging_aggregation: one aggregation (sum/count/max, dropRaw and cache drawn, inbox 4..2000) whose worker is held inside a flush by an unread "
              "output channel while a burst of 2-300 lines is handed in, each from the same caller buffer that is overwritten as soon as Dispatch returns; "
              "after the consumer comes back the aggregation's output must be exactly the function of the values handed in per (rewritten) name, and the "
@@ -262,8 +265,8 @@ PROPS["C04"] = {
     "level_note": "A name that arrived with one leading dot may be forwarded with or without it (the statement does not fix that). Go regexp Expand is trusted for ${n} expansion.",
     "technique": "property-based testing (rapid): reference rewriter model, round-trip through a loopback endpoint, buffer-scribbling metamorphic check",
     "assumptions": ["loopback TCP delivers bytes in order", "sentinel line marks completion (single FIFO writer per connection)"],
-    "quick": [R("TestPropForwardedLine", 1500), R("TestPropLaggingAggregation", 1500), R("TestPropRewriter", 20000), R("TestPropManyNamesRewriter", 4)],
-    "thorough": [R("TestPropForwardedLine", 12000, shards=10, timeout=2400), R("TestPropLaggingAggregation", 30000, shards=2, timeout=2400), R("TestPropRewriter", 300000, shards=4, timeout=2400), R("TestPropManyNamesRewriter", 30, shards=2, timeout=2400)],
+    "quick": [R("TestPropForwardedLine", 1500), R("TestPropLaggingAggregation", 1500), R("TestPropInputSenders", 600), R("TestPropRewriter", 20000), R("TestPropManyNamesRewriter", 4)],
+    "thorough": [R("TestPropForwardedLine", 12000, shards=10, timeout=2400), R("TestPropLaggingAggregation", 30000, shards=2, timeout=2400), R("TestPropInputSenders", 8000, shards=2, timeout=2400), R("TestPropRewriter", 300000, shards=4, timeout=2400), R("TestPropManyNamesRewriter", 30, shards=2, timeout=2400)],
 }
 
 PROPS["C11"] = {
